@@ -58,6 +58,21 @@ package lease_set
 //@   }
 //@ }
 
+// C15: the newest / oldest expiration of a LeaseSet is one of its leases'
+// dates and bounds all the others (three arbitrary leases with end dates below
+// 2^53 ms, far inside the range in which time.Time is exact).
+//@ lemma C15_LeaseSetExpirationBounds(a lease.Lease, b lease.Lease, c lease.Lease) {
+//@   assume(val(a[36:44]) < 1<<53 && val(b[36:44]) < 1<<53 && val(c[36:44]) < 1<<53)
+//@   ls := LeaseSet{leases: []lease.Lease{a, b, c}}
+//@   n, e1 := ls.NewestExpiration()
+//@   o, e2 := ls.OldestExpiration()
+//@   assert(e1 == nil && e2 == nil)
+//@   assert(!a.Date().Time().After(n.Time()) && !b.Date().Time().After(n.Time()) && !c.Date().Time().After(n.Time()))
+//@   assert(!a.Date().Time().Before(o.Time()) && !b.Date().Time().Before(o.Time()) && !c.Date().Time().Before(o.Time()))
+//@   assert(n == a.Date() || n == b.Date() || n == c.Date())
+//@   assert(o == a.Date() || o == b.Date() || o == c.Date())
+//@ }
+
 // C01: re-serialising an accepted LeaseSet reproduces the bytes it was parsed
 // from (ReadLeaseSet returns no remainder: it consumes up to the end of the
 // signature and ignores what follows).
